@@ -108,7 +108,8 @@ Lemma frame_rec x d size buf rest :
              0 < size /\ size <= kMaxRecordSize /\
              (forall z, frame (hd ++ buf ++ z) = FRec d size buf z) /\
              (forall k, (k < 4 + length buf)%nat ->
-                        frame (firstn k (hd ++ buf)) = if (k <? 4)%nat then FEof else FFail).
+                        frame (firstn k (hd ++ buf)) =
+                          if (k =? 0)%nat then FEof else if (k <? 4)%nat then FTorn else FFail).
 Proof.
   unfold frame. destruct x as [|b0 [|b1 [|b2 [|b3 x1]]]]; cbn [rd32]; try discriminate.
   set (w := b0 + 256 * b1 + 65536 * b2 + 16777216 * b3).
@@ -158,9 +159,13 @@ Definition step (strict : bool) (st : lstate) (x : bytes) : option (lstate * byt
   end.
 
 (* What the loader returns when no further record is accepted. *)
-Definition final (strict : bool) (st : lstate) (x : bytes) : dload :=
+Definition final (old strict : bool) (st : lstate) (x : bytes) : dload :=
   match frame x with
   | FEof => DOk (l_s st) None (needs_recompaction (l_total st) (l_unique st))
+  | FTorn =>
+      if old then DOk (l_s st) None (needs_recompaction (l_total st) (l_unique st))
+      else DOk (l_s st) (Some (N.to_nat (l_off st)))
+               (needs_recompaction (l_total st) (l_unique st))
   | FFail => DOk (l_s st) (Some (N.to_nat (l_off st))) false
   | FRec d size buf rest =>
       match decode strict (d_paths (l_s st)) d size buf with
@@ -172,15 +177,15 @@ Definition final (strict : bool) (st : lstate) (x : bytes) : dload :=
 Lemma step_nil strict st : step strict st [] = None.
 Proof. reflexivity. Qed.
 
-Lemma load_loop_step strict f st x :
-  load_loop strict (S f) st x =
+Lemma load_loop_step old strict f st x :
+  load_loop old strict (S f) st x =
   match step strict st x with
-  | Some (st', y) => load_loop strict f st' y
-  | None => final strict st x
+  | Some (st', y) => load_loop old strict f st' y
+  | None => final old strict st x
   end.
 Proof.
   cbn [load_loop]. unfold step, final.
-  destruct (frame x) as [| |d size buf rest]; try reflexivity.
+  destruct (frame x) as [| | |d size buf rest]; try reflexivity.
   destruct (decode strict (d_paths (l_s st)) d size buf); reflexivity.
 Qed.
 
@@ -210,6 +215,15 @@ Proof.
   - exists (d2 ++ d1). rewrite G2, G1, app_assoc. reflexivity.
 Qed.
 
+(* What the loader returns on a file that ends [k] bytes into a record, in state [st]. *)
+Definition torn_result (old : bool) (st : lstate) (k : nat) : dload :=
+  if (k =? 0)%nat then DOk (l_s st) None (needs_recompaction (l_total st) (l_unique st))
+  else if (k <? 4)%nat then
+    (if old then DOk (l_s st) None (needs_recompaction (l_total st) (l_unique st))
+     else DOk (l_s st) (Some (N.to_nat (l_off st)))
+              (needs_recompaction (l_total st) (l_unique st)))
+  else DOk (l_s st) (Some (N.to_nat (l_off st))) false.
+
 Lemma step_anatomy strict st x st' y :
   step strict st x = Some (st', y) ->
   exists c, x = c ++ y /\ (4 < length c)%nat /\
@@ -218,24 +232,19 @@ Lemma step_anatomy strict st x st' y :
             (forall z, step strict st (c ++ z) = Some (st', z)) /\
             (forall k, (k < length c)%nat ->
                step strict st (firstn k c) = None /\
-               final strict st (firstn k c) =
-                 if (k <? 4)%nat
-                 then DOk (l_s st) None (needs_recompaction (l_total st) (l_unique st))
-                 else DOk (l_s st) (Some (N.to_nat (l_off st))) false).
+               forall old, final old strict st (firstn k c) = torn_result old st k).
 Proof.
-  unfold step. destruct (frame x) as [| |d size buf rest] eqn:Ef; try discriminate.
+  unfold step. destruct (frame x) as [| | |d size buf rest] eqn:Ef; try discriminate.
   destruct (frame_rec _ _ _ _ _ Ef) as (hd & -> & Hhd & Hbuf & Hpos & Hmax & Hext & Hpre).
   intros H. exists (hd ++ buf).
   assert (Hlen : nlen (hd ++ buf) = size + 4).
   { unfold nlen. rewrite app_length, Hhd, Hbuf. lia. }
   assert (Hgen : forall k, (k < length (hd ++ buf))%nat ->
      step strict st (firstn k (hd ++ buf)) = None /\
-     final strict st (firstn k (hd ++ buf)) =
-       if (k <? 4)%nat
-       then DOk (l_s st) None (needs_recompaction (l_total st) (l_unique st))
-       else DOk (l_s st) (Some (N.to_nat (l_off st))) false).
+     forall old, final old strict st (firstn k (hd ++ buf)) = torn_result old st k).
   { intros k Hk. rewrite app_length, Hhd in Hk.
-    unfold step, final. rewrite (Hpre k Hk). destruct (k <? 4)%nat; split; reflexivity. }
+    unfold step, final, torn_result. rewrite (Hpre k Hk).
+    destruct (k =? 0)%nat; [split; reflexivity|]. destruct (k <? 4)%nat; split; reflexivity. }
   destruct (decode strict (d_paths (l_s st)) d size buf) as [| |p|o m ins] eqn:Ed;
     try discriminate; inversion H; subst st' y; clear H.
   - split; [rewrite <- app_assoc; reflexivity|].
@@ -271,10 +280,10 @@ Proof.
     intros z'. rewrite <- app_assoc. eapply runs_cons; [apply Hx1|apply Hx2].
 Qed.
 
-Lemma load_loop_runs strict st x st' y :
+Lemma load_loop_runs old strict st x st' y :
   runs strict st x st' y ->
   forall f, (length x < f)%nat ->
-  exists f', (length y < f')%nat /\ load_loop strict f st x = load_loop strict f' st' y.
+  exists f', (length y < f')%nat /\ load_loop old strict f st x = load_loop old strict f' st' y.
 Proof.
   induction 1 as [st x|st x st1 y st' z Hs _ IH]; intros f Hf.
   - exists f. split; [exact Hf|reflexivity].
@@ -284,8 +293,8 @@ Proof.
     rewrite app_length in Hf. apply IH. lia.
 Qed.
 
-Lemma load_loop_final strict st x f :
-  step strict st x = None -> load_loop strict (S f) st x = final strict st x.
+Lemma load_loop_final old strict st x f :
+  step strict st x = None -> load_loop old strict (S f) st x = final old strict st x.
 Proof. intros H. rewrite load_loop_step, H. reflexivity. Qed.
 
 Lemma runs_total strict : forall n x st, (length x <= n)%nat ->
@@ -339,39 +348,41 @@ Lemma take16_header x : take 16 (deps_header ++ x) = Some (deps_header, x).
 Proof. exact (take_app deps_header x). Qed.
 
 (* Characterisation of the loader on a file with a valid header. *)
-Lemma load_deps_runs strict x st' y :
+Lemma load_deps_runs old strict x st' y :
   runs strict l_init x st' y -> step strict st' y = None ->
-  load_deps_gen strict (deps_header ++ x) = final strict st' y.
+  load_deps_ver old strict (deps_header ++ x) = final old strict st' y.
 Proof.
-  intros Hr Hn. unfold load_deps_gen. rewrite take16_header, bytes_eqb_refl.
-  destruct (load_loop_runs _ _ _ _ _ Hr (S (length x)) ltac:(lia)) as (f' & Hf' & ->).
+  intros Hr Hn. unfold load_deps_ver. rewrite take16_header, bytes_eqb_refl.
+  destruct (load_loop_runs old _ _ _ _ _ Hr (S (length x)) ltac:(lia)) as (f' & Hf' & ->).
   destruct f' as [|f']; [lia|]. apply load_loop_final. exact Hn.
 Qed.
 
-Lemma load_deps_header_inv strict f :
-  load_deps_gen strict f <> DBadHeader -> exists x, f = deps_header ++ x.
+Lemma load_deps_header_inv old strict f :
+  load_deps_ver old strict f <> DBadHeader -> exists x, f = deps_header ++ x.
 Proof.
-  unfold load_deps_gen. destruct (take 16 f) as [[h x]|] eqn:Et; [|congruence].
+  unfold load_deps_ver. destruct (take 16 f) as [[h x]|] eqn:Et; [|congruence].
   destruct (take_some _ _ _ _ Et) as [-> _].
   destruct (bytes_eqb_spec h deps_header) as [->|Hne]; [|congruence].
   intros _. exists x. reflexivity.
 Qed.
 
-Lemma final_not_fuel strict st x : step strict st x = None -> final strict st x <> DFuel.
+Lemma final_not_fuel old strict st x :
+  step strict st x = None -> final old strict st x <> DFuel.
 Proof.
-  unfold step, final. destruct (frame x) as [| |d size buf rest]; try discriminate.
+  unfold step, final. destruct (frame x) as [| | |d size buf rest]; try discriminate.
+  { destruct old; discriminate. }
   destruct (decode strict (d_paths (l_s st)) d size buf); discriminate.
 Qed.
 
 (* Fuel is never exhausted: the loader is total on all byte strings. *)
-Theorem load_deps_never_fuel strict f : load_deps_gen strict f <> DFuel.
+Theorem load_deps_never_fuel old strict f : load_deps_ver old strict f <> DFuel.
 Proof.
-  destruct (load_deps_gen strict f) eqn:E; try discriminate.
+  destruct (load_deps_ver old strict f) eqn:E; try discriminate.
   exfalso.
-  destruct (load_deps_header_inv strict f ltac:(congruence)) as [x ->].
+  destruct (load_deps_header_inv old strict f ltac:(congruence)) as [x ->].
   destruct (runs_total strict (length x) x l_init (le_n _)) as (st' & y & Hr & Hn).
-  rewrite (load_deps_runs _ _ _ _ Hr Hn) in E.
-  exact (final_not_fuel _ _ _ Hn E).
+  rewrite (load_deps_runs _ _ _ _ _ Hr Hn) in E.
+  exact (final_not_fuel _ _ _ _ Hn E).
 Qed.
 
 (* ==================================================================================== *)
@@ -1005,11 +1016,11 @@ Qed.
 Definition clean (strict : bool) (f : bytes) (s : dstate) : Prop :=
   exists x st, f = deps_header ++ x /\ runs strict l_init x st [] /\ l_s st = s.
 
-Lemma clean_load strict f s :
-  clean strict f s -> exists nr, load_deps_gen strict f = DOk s None nr.
+Lemma clean_load old strict f s :
+  clean strict f s -> exists nr, load_deps_ver old strict f = DOk s None nr.
 Proof.
   intros (x & st & -> & Hr & <-).
-  rewrite (load_deps_runs _ _ _ _ Hr (step_nil _ _)). eexists. reflexivity.
+  rewrite (load_deps_runs _ _ _ _ _ Hr (step_nil _ _)). eexists. reflexivity.
 Qed.
 
 Lemma clean_header strict : clean strict deps_header d_empty.
@@ -1204,18 +1215,18 @@ Qed.
 (* ==================================================================================== *)
 (* 9. Sessions                                                                          *)
 
-Lemma session_spec strict live (U : list bytes) f s ops :
+Lemma session_spec old strict live (U : list bytes) f s ops :
   nlen U < kMaxIds -> oclean strict f s -> ok_state s -> incl (d_paths s) U ->
   Forall (fun op => incl (op_paths op) U) ops -> forallb wf_op ops = true ->
   exists s' nr,
-    load_deps_gen strict f = DOk s None nr /\
-    oclean strict (session_gen strict live f ops) s' /\ ok_state s' /\ incl (d_paths s') U /\
+    load_deps_ver old strict f = DOk s None nr /\
+    oclean strict (session_ver old strict live f ops) s' /\ ok_state s' /\ incl (d_paths s') U /\
     (forall o, view s' o =
                upd (fun o => if nr then (if live o then view s o else None) else view s o) ops o).
 Proof.
   intros HU Hcl Hok Hincl HopsU Hwf.
-  destruct (clean_load _ _ _ (proj1 Hcl)) as [nr Hload].
-  unfold session_gen. rewrite Hload. destruct nr.
+  destruct (clean_load old _ _ _ (proj1 Hcl)) as [nr Hload].
+  unfold session_ver. rewrite Hload. destruct nr.
   - pose proof (nodup_incl_nlen _ _ (ok_nodup _ Hok) Hincl) as Hcnt.
     destruct (recompact_spec strict live s Hok ltac:(lia)) as (s2 & w2 & E2 & Cl2 & Ok2 & In2 & V2).
     rewrite E2.
@@ -1232,13 +1243,13 @@ Proof.
     exact V3.
 Qed.
 
-Lemma session_nil strict live ops :
-  session_gen strict live [] ops = session_gen strict live deps_header ops.
+Lemma session_nil old strict live ops :
+  session_ver old strict live [] ops = session_ver old strict live deps_header ops.
 Proof.
-  unfold session_gen.
-  replace (load_deps_gen strict []) with DBadHeader by (destruct strict; reflexivity).
-  replace (load_deps_gen strict deps_header) with (DOk d_empty None false)
-    by (destruct strict; reflexivity).
+  unfold session_ver.
+  replace (load_deps_ver old strict []) with DBadHeader by (destruct old, strict; reflexivity).
+  replace (load_deps_ver old strict deps_header) with (DOk d_empty None false)
+    by (destruct old, strict; reflexivity).
   reflexivity.
 Qed.
 
@@ -1295,7 +1306,7 @@ Proof.
     split; [exact Hcl|]. split; [exact Hok|]. split; [exact Hincl|exact Hv].
   - cbn [concat] in *. apply Forall_app in HUs. destruct HUs as [HUo HUr].
     apply forallb_app_true in Hwf. destruct Hwf as [Hwo Hwr].
-    destruct (session_spec true live U f s ops HU Hcl Hok Hincl HUo Hwo)
+    destruct (session_spec false true live U f s ops HU Hcl Hok Hincl HUo Hwo)
       as (s1 & nr & _ & Cl1 & Ok1 & In1 & V1).
     destruct (IH (session live f ops) (prev ++ ops) s1 Cl1 Ok1 In1) as (s' & Cl' & Ok' & In' & V');
       try assumption.
@@ -1328,8 +1339,8 @@ Proof.
   set (all := concat (first :: rest)) in *.
   set (U := flat_map op_paths all).
   assert (HU : nlen U < kMaxIds) by (unfold U; rewrite mentions_paths; exact Hcnt).
-  cbn [run_sessions fold_left]. unfold session. rewrite session_nil.
-  change (fold_left (session live) rest (session_gen true live deps_header first))
+  cbn [run_sessions fold_left]. unfold session, session_gen. rewrite session_nil.
+  change (fold_left (session live) rest (session_ver false true live deps_header first))
     with (run_sessions live deps_header (first :: rest)).
   destruct (run_sessions_inv live U HU (first :: rest) deps_header [] d_empty
               (oclean_header true) ok_empty) as (s & Cl & Ok & In' & V).
@@ -1352,7 +1363,7 @@ Theorem C09_sessions_thm live first rest :
 Proof.
   intros Hwf Hlive.
   destruct (run_sessions_clean live first rest Hwf Hlive) as (s & Cl & Ok & _ & _ & V).
-  destruct (clean_load _ _ _ (proj1 Cl)) as [nr Hl]. exists s, nr.
+  destruct (clean_load false _ _ _ (proj1 Cl)) as [nr Hl]. exists s, nr.
   split; [exact Hl|]. split; [exact Ok|exact V].
 Qed.
 
@@ -1396,7 +1407,7 @@ Proof.
   intros Hok Hcnt.
   destruct (recompact_spec true live s Hok Hcnt) as (s2 & w & E & Cl & Ok2 & _ & V).
   unfold recompact. rewrite E.
-  destruct (clean_load _ _ _ (proj1 Cl)) as [nr Hl].
+  destruct (clean_load false _ _ _ (proj1 Cl)) as [nr Hl].
   exists s2, nr. split; [exact Hl|]. split; [exact Ok2|exact V].
 Qed.
 
@@ -1409,10 +1420,8 @@ Lemma torn_runs strict st x st' :
   exists c y st1,
     x = c ++ y /\ runs strict st c st1 [] /\ (length c <= k)%nat /\
     step strict st1 (firstn (k - length c) y) = None /\
-    final strict st1 (firstn (k - length c) y) =
-      (if (k - length c <? 4)%nat
-       then DOk (l_s st1) None (needs_recompaction (l_total st1) (l_unique st1))
-       else DOk (l_s st1) (Some (N.to_nat (l_off st1))) false) /\
+    (forall old, final old strict st1 (firstn (k - length c) y)
+                 = torn_result old st1 (k - length c)) /\
     (forall r, (0 < r <= k - length c)%nat ->
        step strict st1 (firstn r y) = None /\ firstn r y <> []).
 Proof.
@@ -1420,7 +1429,8 @@ Proof.
   induction H as [st x|st x sta ya st' e' Hs Hr IH]; intros He k Hk.
   - subst x. cbn [length] in Hk. assert (k = 0)%nat by lia. subst k.
     exists [], [], st. split; [reflexivity|]. split; [apply runs_nil|]. split; [cbn; lia|].
-    cbn [length Nat.sub firstn]. split; [reflexivity|]. split; [reflexivity|]. intros r Hr. lia.
+    cbn [length Nat.sub firstn]. split; [reflexivity|]. split; [intros old; reflexivity|].
+    intros r Hr. lia.
   - subst e'. destruct (step_anatomy _ _ _ _ _ Hs) as (c0 & -> & Hc0 & _ & _ & Hx & Hpre).
     rewrite app_length in Hk.
     destruct (Nat.lt_ge_cases k (length c0)) as [Hlt|Hge].
@@ -1443,6 +1453,14 @@ Proof.
       split; [exact Hst|]. split; [exact Hfin|exact Hins].
 Qed.
 
+(* What the loader returns on the first [k] bytes of a clean file, with [off] the last record
+   boundary <= k, [s1] the state of the records complete at [off] and [nr1] the recompaction
+   flag of that state.  [old = true] is the loader before the torn-size-word fix. *)
+Definition torn_outcome (old : bool) (s1 : dstate) (nr1 : bool) (off k : nat) : dload :=
+  if (k - off =? 0)%nat then DOk s1 None nr1
+  else if (k - off <? 4)%nat then (if old then DOk s1 None nr1 else DOk s1 (Some off) nr1)
+  else DOk s1 (Some off) false.
+
 (* The general torn-write theorem on any clean file. *)
 Theorem torn_clean strict f s :
   clean strict f s ->
@@ -1452,8 +1470,8 @@ Theorem torn_clean strict f s :
     clean strict (firstn off f) s1 /\
     (forall j s', (off < j <= k)%nat -> ~ clean strict (firstn j f) s') /\
     extends s1 s /\
-    load_deps_gen strict (firstn k f) =
-      (if (k - off <? 4)%nat then DOk s1 None nr1 else DOk s1 (Some off) false).
+    (forall old, load_deps_ver old strict (firstn off f) = DOk s1 None nr1) /\
+    (forall old, load_deps_ver old strict (firstn k f) = torn_outcome old s1 nr1 off k).
 Proof.
   intros (x & st & -> & Hr & Hs) k Hk.
   assert (Hh : length deps_header = 16%nat) by reflexivity.
@@ -1464,10 +1482,12 @@ Proof.
             firstn j (deps_header ++ c ++ y) = deps_header ++ c ++ firstn (j - 16 - length c) y).
   { intros j Hj. rewrite firstn_app, Hh, (firstn_all2 deps_header) by (rewrite Hh; lia).
     f_equal. rewrite firstn_app, (firstn_all2 c) by lia. reflexivity. }
+  assert (Hcut0 : firstn (16 + length c) (deps_header ++ c ++ y) = deps_header ++ c).
+  { rewrite Hcut by lia. replace (16 + length c - 16 - length c)%nat with 0%nat by lia.
+    cbn [firstn]. rewrite app_nil_r. reflexivity. }
   exists (16 + length c)%nat, (l_s st1), (needs_recompaction (l_total st1) (l_unique st1)).
   split; [lia|]. split.
-  { rewrite Hcut by lia. replace (16 + length c - 16 - length c)%nat with 0%nat by lia.
-    cbn [firstn]. rewrite app_nil_r. exists c, st1. repeat split. exact Hr1. }
+  { rewrite Hcut0. exists c, st1. repeat split. exact Hr1. }
   split.
   { intros j s' Hj (x' & st'' & Hx' & Hr' & _).
     rewrite Hcut in Hx' by lia. apply app_inv_head in Hx'. subst x'.
@@ -1477,54 +1497,108 @@ Proof.
   split.
   { pose proof (runs_det_prefix _ _ _ _ Hr1 _ _ Hr) as Hr2.
     destruct (runs_anatomy _ _ _ _ _ Hr2) as (_ & _ & _ & He & _). rewrite Hs in He. exact He. }
-  rewrite Hcut by lia.
+  split.
+  { intros old. rewrite Hcut0.
+    rewrite (load_deps_runs old strict _ st1 []); [reflexivity|exact Hr1|apply step_nil]. }
+  intros old. rewrite Hcut by lia.
   destruct (runs_anatomy _ _ _ _ _ Hr1) as (c1 & Hc1 & Hoff & _ & Hx1).
   rewrite app_nil_r in Hc1. subst c1.
-  rewrite (load_deps_runs strict _ st1 (firstn (k - 16 - length c) y)).
-  - replace (k - (16 + length c))%nat with (k - 16 - length c)%nat by lia.
-    rewrite Hfin. destruct (k - 16 - length c <? 4)%nat; [reflexivity|].
-    f_equal. f_equal. change (l_off l_init) with 16 in Hoff. unfold nlen in Hoff. lia.
+  rewrite (load_deps_runs old strict _ st1 (firstn (k - 16 - length c) y)).
+  - rewrite Hfin. unfold torn_result, torn_outcome.
+    replace (k - (16 + length c))%nat with (k - 16 - length c)%nat by lia.
+    assert (Ho : N.to_nat (l_off st1) = (16 + length c)%nat).
+    { change (l_off l_init) with 16 in Hoff. unfold nlen in Hoff. lia. }
+    rewrite Ho. reflexivity.
   - apply Hx1.
   - exact Hst.
 Qed.
 
-Lemma torn_header strict f k : (k < 16)%nat -> load_deps_gen strict (firstn k f) = DBadHeader.
+Lemma torn_header old strict f k :
+  (k < 16)%nat -> load_deps_ver old strict (firstn k f) = DBadHeader.
 Proof.
-  intros Hk. unfold load_deps_gen. rewrite take_short; [reflexivity|].
+  intros Hk. unfold load_deps_ver. rewrite take_short; [reflexivity|].
   rewrite firstn_length. lia.
 Qed.
 
 (* ------------------------------------------------------------------------------------ *)
 (* C09_torn for files written by the real writer                                        *)
 
-Theorem C09_torn_partial_thm ops :
+(* Both loaders, every prefix: the precise outcome. *)
+Theorem torn_apply_ops ops :
+  wf_ops ops ->
+  forall k, (16 <= k <= length (apply_ops [] ops))%nat ->
+  exists off s1 nr1,
+    (16 <= off <= k)%nat /\
+    clean true (firstn off (apply_ops [] ops)) s1 /\
+    (forall j s', (off < j <= k)%nat -> ~ clean true (firstn j (apply_ops [] ops)) s') /\
+    (forall old, load_deps_ver old true (firstn k (apply_ops [] ops))
+                 = torn_outcome old s1 nr1 off k).
+Proof.
+  intros Hwf k Hk. destruct (apply_ops_clean ops Hwf) as (s & [Cl _] & _).
+  destruct (torn_clean true _ s Cl k Hk) as (off & s1 & nr1 & H1 & H2 & H3 & _ & _ & H4).
+  exists off, s1, nr1. repeat split; try assumption; lia.
+Qed.
+
+(* C09_torn (current loader): for EVERY k, exactly the records complete within k, and
+   truncation to the last record boundary whenever k is not on one. *)
+Theorem C09_torn_thm ops :
   wf_ops ops ->
   forall k, (k <= length (apply_ops [] ops))%nat ->
   ((k < 16)%nat -> load_deps (firstn k (apply_ops [] ops)) = DBadHeader) /\
+  ((16 <= k)%nat ->
+   exists off s1 nr,
+     (16 <= off <= k)%nat /\
+     clean true (firstn off (apply_ops [] ops)) s1 /\
+     (forall j s', (off < j <= k)%nat -> ~ clean true (firstn j (apply_ops [] ops)) s') /\
+     load_deps (firstn k (apply_ops [] ops)) =
+       DOk s1 (if (k =? off)%nat then None else Some off) nr).
+Proof.
+  intros Hwf k Hk. split.
+  - intros Hlt. apply torn_header. exact Hlt.
+  - intros Hge.
+    destruct (torn_apply_ops ops Hwf k ltac:(lia)) as (off & s1 & nr1 & H1 & H2 & H3 & H4).
+    specialize (H4 false). unfold torn_outcome in H4.
+    exists off, s1.
+    destruct (Nat.eqb_spec k off) as [->|Hne].
+    + exists nr1. repeat split; try assumption. rewrite Nat.sub_diag in H4. exact H4.
+    + replace (k - off =? 0)%nat with false in H4 by (symmetry; apply Nat.eqb_neq; lia).
+      destruct (k - off <? 4)%nat; eexists; (split; [exact H1|]); (split; [exact H2|]);
+        (split; [exact H3|]); exact H4.
+Qed.
+
+(* The OLD loader: the same except that cuts leaving 1-3 bytes of a size word are not truncated. *)
+Theorem C09_torn_old_partial_thm ops :
+  wf_ops ops ->
+  forall k, (k <= length (apply_ops [] ops))%nat ->
+  ((k < 16)%nat -> load_deps_old (firstn k (apply_ops [] ops)) = DBadHeader) /\
   ((16 <= k)%nat ->
    exists off s1 nr1,
      (16 <= off <= k)%nat /\
      clean true (firstn off (apply_ops [] ops)) s1 /\
      (forall j s', (off < j <= k)%nat -> ~ clean true (firstn j (apply_ops [] ops)) s') /\
-     load_deps (firstn k (apply_ops [] ops)) =
+     load_deps_old (firstn k (apply_ops [] ops)) =
        (if (k - off <? 4)%nat then DOk s1 None nr1 else DOk s1 (Some off) false)).
 Proof.
   intros Hwf k Hk. split.
   - intros Hlt. apply torn_header. exact Hlt.
-  - intros Hge. destruct (apply_ops_clean ops Hwf) as (s & [Cl _] & _).
-    destruct (torn_clean true _ s Cl k ltac:(lia)) as (off & s1 & nr1 & H1 & H2 & H3 & _ & H4).
-    exists off, s1, nr1. repeat split; try assumption; lia.
+  - intros Hge.
+    destruct (torn_apply_ops ops Hwf k ltac:(lia)) as (off & s1 & nr1 & H1 & H2 & H3 & H4).
+    specialize (H4 true). unfold torn_outcome in H4.
+    exists off, s1, nr1. repeat split; try assumption.
+    unfold load_deps_old. rewrite H4.
+    destruct (Nat.eqb_spec (k - off) 0) as [E|E].
+    + rewrite E. reflexivity.
+    + destruct (k - off <? 4)%nat; reflexivity.
 Qed.
 
-(* The statement one would like: every cut that is not on a record boundary is truncated
-   back to the last record boundary. *)
-Definition C09_torn_full : Prop :=
+(* The full statement for the OLD loader is false. *)
+Definition C09_torn_old_full : Prop :=
   forall ops, wf_ops ops ->
   forall k, (16 <= k <= length (apply_ops [] ops))%nat ->
   exists off s1 nr1,
     (16 <= off <= k)%nat /\
     clean true (firstn off (apply_ops [] ops)) s1 /\
-    load_deps (firstn k (apply_ops [] ops)) =
+    load_deps_old (firstn k (apply_ops [] ops)) =
       DOk s1 (if (k =? off)%nat then None else Some off) nr1.
 
 (* Witness: one RecordDeps("a", mtime 1, no inputs): 16 header bytes, a 12-byte path record,
@@ -1541,16 +1615,21 @@ Proof. vm_compute. reflexivity. Qed.
 Lemma wf_torn_ops : wf_ops torn_ops.
 Proof. split; [vm_compute; reflexivity|]. vm_compute. reflexivity. Qed.
 
-Example torn_cut_30 :
-  load_deps (firstn 30 torn_file) = DOk (mkD [[97]] []) None false.
+(* old loader: no truncation; current loader: truncated to 28, silently *)
+Example torn_cut_30_old :
+  load_deps_old (firstn 30 torn_file) = DOk (mkD [[97]] []) None false.
 Proof. vm_compute. reflexivity. Qed.
 
-Theorem C09_torn_refuted_thm : ~ C09_torn_full.
+Example torn_cut_30 :
+  load_deps (firstn 30 torn_file) = DOk (mkD [[97]] []) (Some 28%nat) false.
+Proof. vm_compute. reflexivity. Qed.
+
+Theorem C09_torn_old_refuted_thm : ~ C09_torn_old_full.
 Proof.
   intros H.
   destruct (H torn_ops wf_torn_ops 30%nat) as (off & s1 & nr1 & Hoff & Hcl & Hl).
   { fold torn_file. replace (length torn_file) with 44%nat by (vm_compute; reflexivity). lia. }
-  fold torn_file in Hcl, Hl. rewrite torn_cut_30 in Hl.
+  fold torn_file in Hcl, Hl. rewrite torn_cut_30_old in Hl.
   destruct (Nat.eqb_spec 30 off) as [<-|Hne]; [|discriminate].
   destruct Hcl as (x & st & Hx & Hr & _).
   assert (Hf : firstn 30 torn_file
@@ -1562,20 +1641,20 @@ Proof.
   refine (runs_stuck true _ _ _ _ _ Hr1); [vm_compute; reflexivity|discriminate].
 Qed.
 
-(* The consequence.  What one would like: whatever prefix of the log reached the disk, what the
-   NEXT session records is seen by the load after it. *)
-Definition C09_torn_next_session_full : Prop :=
+(* The consequence for the OLD code.  What one wants: whatever prefix of the log reached the
+   disk, what the NEXT session records is seen by the load after it. *)
+Definition C09_torn_next_session_old_full : Prop :=
   forall ops ops2 k, wf_ops (ops ++ ops2) -> (k <= length (apply_ops [] ops))%nat ->
   forall o x, abstract_ops ops2 o = Some x ->
   exists s tr nr,
-    load_deps (apply_ops (firstn k (apply_ops [] ops)) ops2) = DOk s tr nr /\
+    load_deps_old (apply_ops_old (firstn k (apply_ops [] ops)) ops2) = DOk s tr nr /\
     view s o = spec_view (Some x).
 
 Definition torn_ops2 : list dop := [RecordDeps [98] 2 []].
 
-(* after the cut at 30, the next session appends behind the two stray bytes 0c 00 ... *)
-Example torn_next_file :
-  apply_ops (firstn 30 torn_file) torn_ops2 =
+(* OLD: after the cut at 30, the next session appends behind the two stray bytes 0c 00 ... *)
+Example torn_next_file_old :
+  apply_ops_old (firstn 30 torn_file) torn_ops2 =
   deps_header ++ [8; 0; 0; 0; 97; 0; 0; 0; 255; 255; 255; 255] ++ [12; 0]
   ++ [8; 0; 0; 0; 98; 0; 0; 0; 254; 255; 255; 255]
   ++ [12; 0; 0; 128; 1; 0; 0; 0; 2; 0; 0; 0; 0; 0; 0; 0].
@@ -1583,11 +1662,25 @@ Proof. vm_compute. reflexivity. Qed.
 
 (* ... and the following load reads the size word 0c 00 08 00 = 0x0008000c > kMaxRecordSize,
    fails, and truncates the file to 28 bytes: everything that session recorded is gone. *)
-Example torn_next_load :
-  load_deps (apply_ops (firstn 30 torn_file) torn_ops2) = DOk (mkD [[97]] []) (Some 28%nat) false.
+Example torn_next_load_old :
+  load_deps_old (apply_ops_old (firstn 30 torn_file) torn_ops2)
+  = DOk (mkD [[97]] []) (Some 28%nat) false.
 Proof. vm_compute. reflexivity. Qed.
 
-Theorem C09_torn_next_session_lost_refuted_thm : ~ C09_torn_next_session_full.
+(* CURRENT code on the same history: the stray bytes are cut before appending, nothing is lost *)
+Example torn_next_file :
+  apply_ops (firstn 30 torn_file) torn_ops2 =
+  deps_header ++ [8; 0; 0; 0; 97; 0; 0; 0; 255; 255; 255; 255]
+  ++ [8; 0; 0; 0; 98; 0; 0; 0; 254; 255; 255; 255]
+  ++ [12; 0; 0; 128; 1; 0; 0; 0; 2; 0; 0; 0; 0; 0; 0; 0].
+Proof. vm_compute. reflexivity. Qed.
+
+Example torn_next_load :
+  load_deps (apply_ops (firstn 30 torn_file) torn_ops2)
+  = DOk (mkD [[97]; [98]] [(1, (2%Z, []))]) None false.
+Proof. vm_compute. reflexivity. Qed.
+
+Theorem C09_torn_next_session_old_lost_refuted_thm : ~ C09_torn_next_session_old_full.
 Proof.
   intros H.
   destruct (H torn_ops torn_ops2 30%nat) with (o := [98]) (x := (2%Z, @nil bytes))
@@ -1595,7 +1688,7 @@ Proof.
   - split; [vm_compute; reflexivity|]. vm_compute. reflexivity.
   - fold torn_file. replace (length torn_file) with 44%nat by (vm_compute; reflexivity). lia.
   - reflexivity.
-  - fold torn_file in Hl. rewrite torn_next_load in Hl. inversion Hl; subst s tr nr.
+  - fold torn_file in Hl. rewrite torn_next_load_old in Hl. inversion Hl; subst s tr nr.
     vm_compute in Hv. discriminate.
 Qed.
 
@@ -1755,7 +1848,7 @@ Lemma load_loop_safe strict : forall fuel st x,
 Proof.
   induction fuel as [|fuel IH]; intros st x Hs w; [discriminate|].
   cbn [load_loop]. cbn [frames_of] in Hs.
-  destruct (frame x) as [| |d size buf rest] eqn:Ef; try discriminate.
+  destruct (frame x) as [| | |d size buf rest] eqn:Ef; try discriminate.
   destruct (frame_rec _ _ _ _ _ Ef) as (hd & _ & _ & Hbuf & _).
   cbn [forallb] in Hs. apply andb_true_iff in Hs. destruct Hs as [Hs1 Hs2].
   pose proof (decode_safe strict (d_paths (l_s st)) d size buf Hbuf Hs1) as Hd.
